@@ -28,10 +28,17 @@ void gen_history(Tape &t, Case &c, int maxlen, bool allow_copy, int solve_weight
   if (t.chance(1, 4)) { go.minm = 4; go.maxm = 4 + (int)t.below(6); go.minn = 3; go.maxn = 3 + (int)t.below(6); }   // enough rows for the row-wise pricing paths
   GenLP g;
   static const int fam[] = {F_OPT, F_OPT, F_RAND, F_SHAPE, F_FACE, F_OPT, F_ILL, F_RAND, F_INF};
-  if (t.chance(1, 12)) { g.m = Model(); g.m.objsense = t.coin() ? -1 : 1; g.family = "empty"; }
+  int route = (int)t.below(R_NROUTES);
+  if (route == R_FILE) {
+    // a start object from the file readers: at least four rows (below that the simplex never takes its row-wise
+    // paths), families whose models survive the trip through a file unchanged
+    static const int ffam[] = {F_OPT, F_COVER, F_RAND, F_OPT, F_COVER};
+    go.minm = 4; go.maxm = 4 + (int)t.below(6); go.minn = 3; go.maxn = 3 + (int)t.below(7);
+    gen_lp_family(t, go, ffam[t.below(5)], g);
+  }
+  else if (t.chance(1, 12)) { g.m = Model(); g.m.objsense = t.coin() ? -1 : 1; g.family = "empty"; }
   else gen_lp_family(t, go, fam[t.below(9)], g);
   c.add_model(g.m);
-  int route = (int)t.below(R_NROUTES);
   c.ops.push_back(Op("route").I(route));
   // an object that comes from the file readers keeps its reader-made internals (row-major matrix copy, exactly
   // sized arrays) only until the first structural edit: such histories mostly change values
@@ -127,7 +134,7 @@ void gen_history(Tape &t, Case &c, int maxlen, bool allow_copy, int solve_weight
   // uses for its row-wise computations as long as no structural edit has dropped it): direct solve, overwrite an
   // existing coefficient (often just its sign), move the right-hand side of that row so that the old basis
   // becomes infeasible, and let the final solve below re-optimise
-  if (g_adaptive_tail && route == R_FILE && gm.m() > 0 && t.chance(1, 2)) {
+  if (g_adaptive_tail && route == R_FILE && gm.m() > 0 && t.chance(3, 4)) {
     SolveCfg c1 = gen_cfg(t, true);
     c1.precision = 0;
     c1.entry = 1 + (int)t.below(2);
